@@ -30,6 +30,11 @@ func (p PtrPtrSet) Add(ptr1, ptr2 interface{}) {
 		p[ptrOf(ptr1)][ptrOf(ptr2)] = null
 	}
 }
+func (p PtrPtrSet) Remove(ptr1, ptr2 interface{}) {
+	if m := p[ptrOf(ptr1)]; m != nil {
+		delete(m, ptrOf(ptr2))
+	}
+}
 func (p PtrPtrSet) Contains(ptr1, ptr2 interface{}) bool {
 	if p[ptrOf(ptr1)] == nil {
 		return false
